@@ -164,6 +164,89 @@ def base_scenarios(quick):
     return out
 
 
+# --------------------------------------------------------------------------
+# "complete new content", by construction of the generator (independent of the implementation)
+# --------------------------------------------------------------------------
+
+import re
+
+_TOK = re.compile(r'\{\{|\}\}|\{(\w+)\}')
+_SUBST = {'k1': 'v1', 'k2': 'ü2', 'k3': '3', 'missing': 'M', 'bomb': 'B', 'unser': 'S'}
+
+
+def subst(text):
+    return _TOK.sub(lambda m: '{' if m.group(0) == '{{' else '}' if m.group(0) == '}}' else _SUBST[m.group(1)], text)
+
+
+def subst_doc(d):
+    if isinstance(d, str):
+        return subst(d)
+    if isinstance(d, list):
+        return [subst_doc(x) for x in d]
+    if isinstance(d, dict):
+        return {subst_doc(k): subst_doc(v) for k, v in d.items()}
+    return d
+
+
+def planted_spec(scn, rel, spec):
+    """The file's content spec with the content-borne fault planted (mirror of impl_c15.materialise)."""
+    fault = scn.get('fault') or {}
+    if fault.get('src') != rel or fault.get('via') not in ('missing', 'bomb', 'serialise'):
+        return spec
+    if 'lines' in spec:
+        lines = list(spec['lines'])
+        n = fault['n'] - 1
+        tag = '{missing}' if fault['via'] == 'missing' else '{bomb}'
+        body, nl = (lines[n][:-1], '\n') if lines[n].endswith('\n') else (lines[n], '')
+        lines[n] = body + ' ' + tag + nl
+        return {'lines': lines}
+    tag = {'missing': 'x{missing}', 'bomb': 'x{bomb}', 'serialise': '{unser}'}[fault['via']]
+    doc = spec['doc']
+    doc = {I.FAULT_KEY: tag, **doc} if fault.get('first') else {**doc, I.FAULT_KEY: tag}
+    return {'doc': doc}
+
+
+def new_content_problem(scn, ref_after):
+    """Compare what the fault-free reference run left in each matched source with the content the
+    generator constructed (text: byte-exact; documents: equal after parsing). None if all good."""
+    step = scn['step']
+    e = scn.get('enc') or {}
+    enc_out = e.get('encodingOut', e.get('encoding')) or 'utf-8'
+    specs = dict((rel, spec) for rel, spec in scn['files'])
+    for src in scn['matched']:
+        if not is_inplace(scn, src):
+            continue
+        spec = planted_spec(scn, src, specs[src])
+        got = bytes.fromhex(ref_after.get(src, ''))
+        try:
+            if 'lines' in spec:
+                text = ''.join(spec['lines'])
+                if step == 'fileformat':
+                    want = subst(text)
+                else:
+                    want = text
+                    for a, b in (scn.get('replace') or {'l': 'L'}).items():
+                        want = want.replace(a, subst(b))
+                if got.decode(enc_out) != want:
+                    return f'{src}: a successful rewrite left {got.decode(enc_out)!r}, constructed new content {want!r}'
+            else:
+                want = subst_doc(spec['doc'])
+                if step == 'fileformatjson':
+                    import json
+                    have = json.loads(got.decode(enc_out))
+                elif step == 'fileformatyaml':
+                    import ruamel.yaml
+                    have = ruamel.yaml.YAML(typ='safe', pure=True).load(got.decode(enc_out))
+                else:
+                    import tomllib
+                    have = tomllib.loads(got.decode('utf-8'))
+                if have != want:
+                    return f'{src}: a successful rewrite left a document equal to {have!r}, constructed {want!r}'
+        except Exception as ex:  # undecodable / unparsable output
+            return f'{src}: output of a successful rewrite cannot be read back: {type(ex).__name__}: {ex}'
+    return None
+
+
 def is_inplace(scn, src):
     o = I.canonical_out(scn, src)
     return o is None or os.path.normpath(o) == os.path.normpath(src)
@@ -299,6 +382,10 @@ def run_case(drv, scn):
         notes.append('observations differ')
     if notes:
         rec['mismatch'] = '; '.join(notes)
+    if obs['ref']['ok'] and not (fault and fault.get('via') == 'badsource'):
+        prob = new_content_problem(scn, obs['ref']['after'])
+        if prob:
+            rec['ref_problem'] = prob
     # ---- the monitor, on the implementation's own before/after (in-place scenarios only)
     if all(is_inplace(scn, s) for s in scn['matched']) and obs['ref']['ok']:
         srcs = [[s, obs['ref']['after'].get(s, '')] for s in scn['matched']]
@@ -331,6 +418,10 @@ def absorb(res, rec):
     res.case(scn, nontrivial=bool(scn.get('fault')))
     if 'mismatch' in rec:
         res.mismatch(scn, rec['model'], rec['impl'], rec['mismatch'])
+    if rec.get('ref_problem'):
+        res.violation(scn, 'a rewrite that ended ok did not leave the complete new content: ' + rec['ref_problem'],
+                      signature={'site': 'in_to_out', 'step': scn['step'], 'clauses': 'newContentComplete'},
+                      impl={'end': 'ok', 'before': rec['impl_detail']['before']})
     v = rec.get('verdict')
     if v is not None and not v['holds']:
         fault = scn.get('fault') or {}
